@@ -121,6 +121,8 @@ def handleC13 (c : Case) : Verdict :=
           ({ a with lastM := e.t, lastR := a.fileTime }.label "forced-refresh-ok")
       | "cancel" =>
         if a.ended then a else
+        -- cancelled inside the Freeze window: the failed forced refresh (its Unfreeze record follows)
+        if a.frozen then ({ a with ended := true }.label "cancelled-while-frozen") else
         -- guard: the context is cancelled only by a failed forced refresh (seen at its Unfreeze) or by Unlock
         ({ a with ages := (if active then (e.t - a.fileTime) :: a.ages else a.ages), ended := true }.differ "cancel-guard"
           s!"context cancelled at {e.t}us without a failed forced refresh or Unlock")
